@@ -200,6 +200,9 @@ def build_harness(spec, tier, extra_defs=(), keep=False, native=False):
     htxt = open(os.path.join(VERIF, "harness", spec["src"])).read()
     for inc in re.findall(r'#include "gen/(\w+\.inc)"', htxt):
         open(os.path.join(d, "gen", inc), "w").close()
+        if inc.startswith("pre_"):  # companions, in case only some are included
+            for other in ("post_", "assume_"):
+                open(os.path.join(d, "gen", other + inc[4:]), "w").close()
     incs.append("-I" + d)
     if spec.get("light"):
         # "light" enforcement: the contract's ensures clauses of the function under
